@@ -35,7 +35,7 @@ var Kinds = []Kind{Bridge, L1Info, GER}
 
 // BlockKinds is the per-store alphabet of block contents.
 var BlockKinds = map[Kind][]string{
-	Bridge: {"empty", "bridge", "bridge2", "claim", "tokenmap", "migrate", "rmlegacy", "bridge+claim"},
+	Bridge: {"empty", "bridge", "bridge2", "claim", "tokenmap", "migrate", "rmlegacy", "bridge+claim", "same"},
 	L1Info: {"empty", "info", "info2", "verify", "v2", "init", "verify+info"},
 	GER:    {"empty", "insert", "remove", "insertinfo"},
 }
@@ -303,6 +303,16 @@ func (c *Chain) NextAt(num uint64, kind string, salt int) aggsync.Block {
 		case "bridge2":
 			addBridge()
 			addBridge()
+		case "same":
+			// the same bridge transaction included again (e.g. re-included on a new fork, or simply an
+			// identical transfer): every hashed field is identical, only the deposit count differs
+			b := MakeBridge(num, pos, dc, salt)
+			b.LeafType, b.OriginNetwork, b.OriginAddress = 0, 0, addr("same-oa")
+			b.DestinationNetwork, b.DestinationAddress = 2, addr("same-da")
+			b.Amount, b.Metadata = big.NewInt(7), nil
+			evs = append(evs, bridgesync.Event{Bridge: b})
+			rb.Leaves = append(rb.Leaves, ref.BridgeLeaf(b.LeafType, b.OriginNetwork, b.OriginAddress, b.DestinationNetwork,
+				b.DestinationAddress, b.Amount, b.Metadata))
 		case "claim":
 			evs = append(evs, bridgesync.Event{Claim: makeClaim(num, pos, salt)})
 		case "bridge+claim":
